@@ -75,6 +75,10 @@ def check_clamp(case, ctx):
             dim = getattr(rxn, 'get_%s_act' % q)(units=u, T=T, rev=rev, P=P)
             ctx.close(tag + '_act(units)', dim, expect * T * c.R(u + '/K'), rtol=1e-12,
                       atol=1e-12 * scale * T * c.R(u + '/K'), detail='rev=%s units=%s' % (rev, u))
+    # documented default pressure of the activation getters: 1 bar
+    for q in ('H', 'G'):
+        f = getattr(rxn, 'get_%s_act' % q)
+        ctx.close('C09.clamp/default-P:%s' % q, f(units=u, T=T), f(units=u, T=T, P=1.0), rtol=0)
     for cl in sorted(classes):
         ctx.label(cl)
     ctx.label('ts' if has_ts else 'no-ts', 'cls:' + case['cls'])
